@@ -1020,6 +1020,37 @@ def run(ctx):
         ctx.ob("R08.6", site_key(gq, "internalQueue.enqueue(event)"), ok, gq.where, "%d enqueue(s) of the parameter" % len(enq))
     ctx.guard("R08.6", r6)
 
+    # ------------------------------------------------------------------------------ R08.7
+    ctx.rule("R08.7", "<if>/<elseif>/<else> chains are read into nested If values linked through If.else_content: the reader attaches a new "
+                      "else region only to an If whose else_content is still 0 (every assignment `x.else_content = id` in the XML reader is "
+                      "under `x.else_content == 0` of the same x, inside the loop that follows the existing links) - an existing link is "
+                      "never overwritten, which would unlink the branches behind it")
+
+    def r7():
+        n = 0
+        for fn in F.fn_list:
+            if fn.hir is None or not fn.path.startswith("scxml_reader::"):
+                continue
+            for a in fn.nodes("assign"):
+                f = hirq.field_of(a["l"], NO_T)
+                if not f or f[1] != "else_content":
+                    continue
+                base = local_of(f[0], NO_T)
+                n += 1
+                unset = False
+                for g, pol in hirq.guard_atoms(fn, a):
+                    if pol is None or not isinstance(g, dict) or g.get("k") != "bin":
+                        continue
+                    gf = hirq.field_of(g["l"], NO_T)
+                    if gf and gf[1] == "else_content" and local_of(gf[0], NO_T) == base and base is not None and const_eval(g["r"]) == 0:
+                        if (g["op"] in ("Gt", "Ne") and pol is False) or (g["op"] == "Eq" and pol is True):
+                            unset = True
+                in_loop = bool(hirq.enclosing_loops(fn, a))
+                ctx.ob("R08.7", site_key(fn, "else region attached only where none is linked yet", n - 1), unset and in_loop, line_of(a),
+                       "assignment under `else_content == 0` of the same If: %s; inside the loop that follows the chain: %s" % (unset, in_loop))
+        ctx.floor("R08.7", "assignments of If.else_content in the XML reader", n, 2)
+    ctx.guard("R08.7", r7)
+
 
 # ------------------------------------------------------------------------------------------------
 # helpers used by R08.4 (and by C09, which re-implements the same query on all Expression impls)
